@@ -100,10 +100,10 @@ fn hdr_tok(prefix: &str, h: &http::HeaderMap, name: &str) -> String {
 }
 
 #[derive(Clone)]
-struct Script {
-    early: Option<i32>,
-    msgs: Vec<Vec<u8>>,
-    end: i32,
+pub struct Script {
+    pub early: Option<i32>,
+    pub msgs: Vec<Vec<u8>>,
+    pub end: i32,
 }
 
 type BoxStream = Pin<Box<dyn tokio_stream::Stream<Item = Result<Vec<u8>, Status>> + Send>>;
@@ -141,7 +141,7 @@ impl tonic::server::UnaryService<Vec<u8>> for Script {
     }
 }
 
-async fn drain_body<B>(mut body: B) -> (Vec<String>, Vec<u8>)
+pub async fn drain_body<B>(mut body: B) -> (Vec<String>, Vec<u8>)
 where
     B: http_body::Body<Data = Bytes> + Unpin,
     B::Error: std::fmt::Debug,
